@@ -40,6 +40,8 @@ THEOREMS = [
     "C14_patch_use_sites",
     "C14_map_type_everywhere",
     "C14_map_json_exception",
+    "C14_map_constrained_keys_use_map_type",
+    "C14_json_map_only_string_any",
     "C14_map_is_empty_path",
     "C14_type_ident_settings",
     "C14_replace_lookup",
@@ -201,6 +203,73 @@ class Dump:
     def is_json_map(self, e):
         k, v = self.e.get(e["key"]), self.e.get(e["value"])
         return k is not None and v is not None and k["kind"] == "string" and v["kind"] == "json"
+
+    def render_ty(self, i, M, type_mod=None, value_only=False, depth=0):
+        """How the type with id i must be spelled (white space removed) under map type M: every
+        Map(key, value) entry is `M<key,value>` with the KEY type spelled out, except key == plain
+        String and value == JsonValue (`::serde_json::Map<String, Value>`).  None = cannot tell.
+        value_only=True renders what a test on the value alone would give (emulated regression)."""
+        e = self.e.get(i)
+        if e is None or depth > 40:
+            return None
+        k = e["kind"]
+        r = lambda x: self.render_ty(x, M, type_mod, value_only, depth + 1)
+        if k in ("struct", "enum", "newtype"):
+            return (type_mod + "::" if type_mod else "") + e["name"]
+        if k == "option":
+            x = r(e["id"])
+            ie = self.e.get(e["id"])
+            if x is None:
+                return None
+            return x if ie and ie["kind"] == "option" else "::std::option::Option<%s>" % x
+        if k in ("box", "vec", "set"):
+            x = r(e["id"])
+            pre = {"box": "::std::boxed::Box<", "vec": "::std::vec::Vec<", "set": "Vec<"}[k]
+            return None if x is None else pre + x + ">"
+        if k == "map":
+            ke, ve = self.e.get(e["key"]), self.e.get(e["value"])
+            if ke is None or ve is None:
+                return None
+            if ve["kind"] == "json" and (value_only or ke["kind"] == "string"):
+                return JSON_MAP
+            a, b = r(e["key"]), r(e["value"])
+            return None if a is None or b is None else "%s<%s,%s>" % (M, a, b)
+        if k == "array":
+            x = r(e["id"])
+            return None if x is None else "[%s;%dusize]" % (x, e["len"])
+        if k == "tuple":
+            xs = [r(t) for t in e["ids"]]
+            if any(x is None for x in xs):
+                return None
+            return "(%s,)" % xs[0] if len(xs) == 1 else "(%s)" % ",".join(xs)
+        if k == "native":
+            xs = [r(t) for t in e["params"]]
+            if any(x is None for x in xs):
+                return None
+            return squash(e["type_name"]) + ("<%s>" % "".join(x + "," for x in xs) if xs else "")
+        if k == "unit":
+            return "()"
+        if k == "string":
+            return "::std::string::String"
+        if k == "boolean":
+            return "bool"
+        if k == "json":
+            return "::serde_json::Value"
+        if k in ("integer", "float"):
+            return squash(e["name"])
+        return None
+
+    def map_nodes(self, i, depth=0, acc=None):
+        """the Map entries of the anonymous type tree below id i: [(key entry, value entry)]"""
+        acc = [] if acc is None else acc
+        e = self.e.get(i)
+        if e is None or depth > 40 or e["kind"] in ("struct", "enum", "newtype"):
+            return acc
+        if e["kind"] == "map":
+            acc.append((self.e.get(e["key"]), self.e.get(e["value"])))
+        for c in self.children(i):
+            self.map_nodes(c, depth + 1, acc)
+        return acc
 
     def count_maps(self, i, depth=0):
         """(configured-map nodes, serde_json::Map nodes) in the ANONYMOUS type tree below id i
@@ -721,6 +790,8 @@ def check_syntactic(doc, st, meta, g, base, viol, counts):
         for p in W.pos:
             if not isinstance(p["schema"], dict) or deep_strip(p["schema"]) != dcs:
                 continue
+            if p["kind"] == "definition" and p["path"].split("/")[-1] in meta["replace"]:
+                continue        # a REPLACED definition is never converted: the replacement comes first (lib.rs:650)
             if strip_meta(p["schema"]) != strip_meta(cs):
                 counts["convert_sites_nested_annotation"] += 1      # former finding C14-F1 (fix a0b7480)
                 if MUT == "nested-annotations-matter":
@@ -842,12 +913,31 @@ def check_syntactic(doc, st, meta, g, base, viol, counts):
             if nm_cfg != a or nj != b or others != 0:
                 bad("map-typed-member-does-not-use-configured-map-type", member=label, type_text=text,
                     expected_map=meta["map_type"], configured_nodes=a, json_map_nodes=b)
+            # exact spelling of THIS member, decided from the IR: configured map type and the key type's own
+            # name for every Map(key, value) with key != String or value != JsonValue; serde_json::Map only for
+            # key == String and value == JsonValue
+            want_ty = D.render_ty(tid, M)
+            got_ty = squash(text)
+            if MUT == "json-map-value-only":
+                got_ty = D.render_ty(tid, M, value_only=True)
+            for ke, ve in D.map_nodes(tid):
+                if ke is None or ve is None:
+                    continue
+                shape = ("key:%s" % ("string" if ke["kind"] == "string" else "constrained:" + ke["kind"]),
+                         "value:%s" % ("any" if ve["kind"] == "json" else "typed"))
+                counts["map_node:%s,%s" % shape] += 1
+            if want_ty is not None and got_ty != want_ty:
+                bad("map-typed-member-not-spelled-as-the-IR-demands", member=label, type_text=text,
+                    expected=want_ty, map_type=meta["map_type"],
+                    maps=[(ke and ke.get("kind"), ve and ve.get("kind")) for ke, ve in D.map_nodes(tid)])
             te = D.ent(tid)
             if optional and te and te["kind"] == "map":
                 counts["map_is_empty_paths"] += 1
                 sk = [x[1] for x in serde if x[0] == "skip_serializing_if"]
                 want = "::serde_json::Map::is_empty" if D.is_json_map(te) else M + "::is_empty"
                 got = squash(sk[0]) if sk else None
+                if MUT == "json-map-value-only" and D.ent(te["value"])["kind"] == "json":
+                    got = "::serde_json::Map::is_empty"
                 if MUT == "is-empty-default-map" and not D.is_json_map(te) and M != squash(MAP_TYPES[0]):
                     got = squash(MAP_TYPES[0]) + "::is_empty"
                 if got != want:
@@ -1101,6 +1191,73 @@ def canon_answer(o):
 
 
 # --------------------------------------------------------------------------
+KEY_SHAPES = [None, {"pattern": "^[a-z]+$"}, {"$ref": "#/definitions/C14Key"}, {"enum": ["ka", "kb"]},
+              {"format": "uuid"}, {"type": "string", "maxLength": 4}]
+VALUE_SHAPES = ["absent", True, {}, {"type": "integer"}, {"type": "string", "maxLength": 3}, "ref"]
+
+
+def map_schema(rnd, doc, key=Ellipsis, value=Ellipsis):
+    key = rnd.choice(KEY_SHAPES) if key is Ellipsis else key
+    value = rnd.choice(VALUE_SHAPES) if value is Ellipsis else value
+    m = {"type": "object"}
+    if key is not None:
+        m["propertyNames"] = copy.deepcopy(key)
+        if "$ref" in key:
+            doc["definitions"].setdefault("C14Key", {"type": "string", "pattern": "^k"})
+    if value == "ref":
+        names = [n for n in sorted(doc["definitions"]) if n != "C14Key"]
+        value = {"$ref": "#/definitions/" + rnd.choice(names)} if names else {"type": "boolean"}
+    if value != "absent":
+        m["additionalProperties"] = copy.deepcopy(value)
+    return m
+
+
+def add_map_shapes(rnd, doc):
+    """maps with constrained KEYS (propertyNames) and any / typed values at the places a map can occur:
+    existing map schemas get propertyNames, and one holder definition shows the map as required member,
+    optional member, item, Option inner, definition root and flattened additionalProperties"""
+    defs = doc["definitions"]
+
+    def rec(s, depth=0):
+        if not isinstance(s, dict) or depth > 10:
+            return
+        if s.get("type") == "object" and "properties" not in s and "additionalProperties" in s \
+                and "propertyNames" not in s and rnd.random() < 0.5:
+            k = rnd.choice(KEY_SHAPES[1:])
+            s["propertyNames"] = copy.deepcopy(k)
+            if "$ref" in k:
+                defs.setdefault("C14Key", {"type": "string", "pattern": "^k"})
+            x = rnd.random()
+            if x < 0.25:
+                s.pop("additionalProperties")
+            elif x < 0.4:
+                s["additionalProperties"] = True
+            elif x < 0.5:
+                s["additionalProperties"] = {}
+        for v in list(s.values()):
+            if isinstance(v, dict):
+                rec(v, depth + 1)
+                for vv in v.values():
+                    rec(vv, depth + 1)
+            elif isinstance(v, list):
+                for vv in v:
+                    rec(vv, depth + 1)
+    for n in sorted(defs):
+        rec(defs[n])
+    if rnd.random() < 0.7:
+        key = rnd.choice(KEY_SHAPES[1:])
+        val = rnd.choice(["absent", True, {}])
+        m = lambda: map_schema(rnd, doc, key, val)
+        defs["C14MapRoot"] = m()
+        holder = {"type": "object", "properties": {"req": m(), "opt": m(), "vec": {"type": "array", "items": m()},
+                                                   "nul": {"oneOf": [m(), {"type": "null"}]},
+                                                   "other": map_schema(rnd, doc)}, "required": ["req"]}
+        defs["C14MapHolder"] = holder
+        flat = map_schema(rnd, doc, key, rnd.choice([{}, {"type": "integer"}]))
+        flat["properties"] = {"named": {"type": "string"}}
+        defs["C14MapFlat"] = flat
+
+
 def load_docs(ctx):
     quick = ctx.tier == "quick"
     docs = []
@@ -1121,6 +1278,7 @@ def load_docs(ctx):
         for pth, s in type_positions(doc):
             if isinstance(s, dict) and rnd.random() < 0.25 and "$ref" not in s:
                 s["description"] = "occurrence at " + pth
+        add_map_shapes(rnd, doc)
         dnames = sorted(doc["definitions"])
         for dn in dnames:
             s = doc["definitions"][dn]
@@ -1177,7 +1335,10 @@ def run(ctx):
         if not gen_ok(g):
             continue
         if d.get("fixed_settings") is not None:
-            for fs in d["fixed_settings"]:
+            fixed = d["fixed_settings"]
+            if quick and len(d["doc"].get("definitions", {})) > 50:
+                fixed = fixed[::2]          # large curated documents: every other assignment in the quick tier
+            for fs in fixed:
                 cases.append(case_of(d["doc"], fs))
                 metas.append(meta_from_settings(d["doc"], g, fs))
                 owner.append(di)
